@@ -10,13 +10,16 @@ import (
 
 // ---- generator of valid Go files (import section known by construction) ----
 
-// symbolic comment byte: anything but NUL, newline and '*' (so that it can
-// sit in both comment forms without ending them)
-func vCommentByte() byte {
+// symbolic comment byte: anything but NUL and newline; in a one-byte body
+// also not '*' (so that it can sit in both comment forms without ending them)
+func vCommentByte(star bool) byte {
 	b := rt.Byte()
 	rt.Assume(b != 0)
+	rt.Assume(b < 0x80) // a valid Go file is valid UTF-8
 	rt.Assume(b != '\n')
-	rt.Assume(b != '*')
+	if !star {
+		rt.Assume(b != '*')
+	}
 	return b
 }
 
@@ -32,23 +35,34 @@ func vSlot(kind int, vary bool) string {
 	var menu []string
 	switch kind {
 	case 0:
-		menu = []string{"", " ", "\t\r", "\f", "/*c*/"}
+		menu = []string{"", " ", "\t\r", "/*c*/", "/*cc*/"}
 	case 1:
-		menu = []string{" ", "\t", "/*c*/", " /*c*/ "}
+		menu = []string{" ", "\t", "/*c*/", " /*cc*/ "}
 	case 2:
 		menu = []string{"\n", ";", ";\n", " //c\n", "\r\n", "\n\n"}
 	case 3:
-		menu = []string{"", " ", "\n", "//c\n", "/*c*/", "\t\r\n"}
+		menu = []string{"", " ", "\n", "//c\n", "/*c*/", "\t\r\n", "/*cc*/"}
 	case 4:
-		menu = []string{" ", "\t", "\n", "//c\n", "/*c*/", " \r\n"}
+		menu = []string{" ", "\t", "\n", "//c\n", "/*c*/", " \r\n", "/*cc*/"}
 	}
 	s := menu[rt.IntRange(0, len(menu)-1)]
 	// a 'c' in a comment stands for a symbolic byte
-	out := []byte(s)
-	for i := range out {
-		if out[i] == 'c' {
-			out[i] = vCommentByte()
+	var out []byte
+	for i := 0; i < len(s); i++ {
+		if s[i] != 'c' {
+			out = append(out, s[i])
+			continue
 		}
+		if i+1 < len(s) && s[i+1] == 'c' {
+			// two-byte block comment body: any bytes (asterisks included)
+			// that do not end the comment early
+			b1, b2 := vCommentByte(true), vCommentByte(true)
+			rt.Assume(rt.Not(rt.And(b1 == '*', b2 == '/')))
+			out = append(out, b1, b2)
+			i++
+			continue
+		}
+		out = append(out, vCommentByte(false))
 	}
 	return string(out)
 }
@@ -69,6 +83,7 @@ func vString(vary bool, maxLen int) string {
 	}
 	for i := range b {
 		rt.Assume(b[i] != 0)
+		rt.Assume(b[i] < 0x80)
 		rt.Assume(b[i] != q)
 		if !raw {
 			rt.Assume(b[i] != '\n')
